@@ -209,12 +209,79 @@ class FuzzCall:
         self.error = None
 
 
+class EvoCall:
+    """one call of an evolution-level operator: inputs (before the call), draws, outputs"""
+
+    def __init__(self, op: str, grammar):
+        self.op, self.grammar = op, grammar
+        self.tree = self.tree2 = self.out = self.inputs_after = None
+        self.draws: list = []             # (index into the sequence random.choice drew from, the element)
+        self.fuzz_calls: list = []        # FuzzCall objects made during the operator
+        self.failing = None               # mutate: paths of the failing trees
+        self.max_nodes = None
+        self.same = None
+        self.suggestion = self.individual = self.sugg_pre = None
+        self.given: dict = {}             # id(EqualComparisonSuggestion) -> the pairs it returned
+        self.tape: list = []
+        self.cap = None
+        self.error = self.not_modelled = None
+
+
+def _path_in(tree, individual) -> list[int]:
+    if tree.get_root() is not individual:
+        raise NotModelled("suggestion refers to a tree outside the individual")
+    cp = child_path(tree)
+    if cp is None:
+        raise NotModelled("suggestion refers to a tree below a sources edge")
+    return cp
+
+
+def sugg_fields(sugg, individual):
+    """the fields of a suggestion tree that the model reads, taken BEFORE get_replacements runs"""
+    from fandango.constraints.comparison import EqualComparisonSuggestion
+    from fandango.constraints.failing_tree import ApplyAllSuggestions, ApplyFirstSuggestion, NopSuggestion
+    from fandango.constraints.repetition_bounds import RepetitionBoundsSuggestion
+    if isinstance(sugg, NopSuggestion):
+        return ["nop"]
+    if isinstance(sugg, ApplyAllSuggestions):
+        return ["all", [sugg_fields(s, individual) for s in sugg.suggestions]]
+    if isinstance(sugg, ApplyFirstSuggestion):
+        return ["first", [sugg_fields(s, individual) for s in sugg.suggestions]]
+    if isinstance(sugg, EqualComparisonSuggestion):
+        return ["given", id(sugg)]
+    if isinstance(sugg, RepetitionBoundsSuggestion):
+        return ["rep", _path_in(sugg._ending_rep_tree, individual), _path_in(sugg._starting_rep_value, individual),
+                _path_in(sugg._ending_rep_value, individual), int(sugg._bound_len), int(sugg._goal_len),
+                int(sugg._iter_id), str(sugg._repetition_id), bool(sugg.allow_repetition_full_delete),
+                sugg._repetition_node]
+    raise NotModelled(f"suggestion {type(sugg).__name__}")
+
+
+def sugg_json(pre, ev: EvoCall, table, keys) -> list:
+    """fill in what only exists after the call (the pairs of the parser-based leaves) and serialise grammar nodes"""
+    tag = pre[0]
+    if tag in ("all", "first"):
+        return [tag, [sugg_json(s, ev, table, keys) for s in pre[1]]]
+    if tag == "given":
+        pairs = ev.given.get(pre[1], [])
+        return ["given", [[_path_in(t, ev.individual), atree_json(r)] for t, r in pairs]]
+    if tag == "rep":
+        if pre[4] < 0 or pre[5] < 0:
+            raise NotModelled("negative repetition length")
+        return pre[:9] + [fnode_json(pre[9], table, keys)]
+    return pre
+
+
 class Recorder:
     """While active, every `Grammar.fuzz` call is recorded as a FuzzCall.  The real functions are always
     called; the wrappers only observe.  Draws made by exrex and by generator code are not part of the tape
     (their *results* are: regex instance, generated tree)."""
 
-    def __init__(self, regexes_of=None):
+    def __init__(self, regexes_of=None, evo: bool = False):
+        self.evo = evo                      # also record crossover / mutate / fix_individual calls
+        self.evo_calls: list[EvoCall] = []
+        self._evo_stack: list[EvoCall] = []
+        self._evo_codes: set = set()
         self.calls: list[FuzzCall] = []
         self.loose_tape: list = []          # draws outside Grammar.fuzz (e.g. _insert_repetitions)
         self._cur: Optional[FuzzCall] = None
@@ -253,6 +320,9 @@ class Recorder:
                 if isinstance(caller, Alternative):
                     idx = next((i for i, x in enumerate(seq) if x is res), None)
                     rec._emit(["alt", idx])
+                elif rec._evo_stack and sys._getframe(1).f_code in rec._evo_codes:
+                    idx = next((i for i, x in enumerate(seq) if x is res), None)
+                    rec._evo_stack[-1].draws.append((idx, res))
             return res
 
         def randint(a, b):
@@ -302,6 +372,8 @@ class Recorder:
             call.path = [sname] if prefix_node is None else [n.symbol.name() if n.symbol.is_non_terminal else "?"
                                                              for n in prefix_node.get_path()]
             rec._cur = call
+            if rec._evo_stack:
+                rec._evo_stack[-1].fuzz_calls.append(call)
             try:
                 out = o_fuzz(self, start, max_nodes, prefix_node)
                 call.tree = out
@@ -317,12 +389,275 @@ class Recorder:
                        (TerminalNode, "fuzz", o_tfuzz), (Grammar, "generate", o_generate), (Grammar, "fuzz", o_fuzz)]
         random.choice, random.randint = choice, randint
         TerminalNode.fuzz, Grammar.generate, Grammar.fuzz = tfuzz, generate, gfuzz
+        if self.evo:
+            self._patch_evo()
         return self
+
+    def _patch_evo(self) -> None:
+        """wrappers around SimpleSubtreeCrossover.crossover, SimpleMutation.mutate, PopulationManager.fix_individual
+        and EqualComparisonSuggestion.get_replacements: inputs before the call, draws, outputs.  They only observe."""
+        from fandango.constraints.comparison import EqualComparisonSuggestion
+        from fandango.evolution.crossover import SimpleSubtreeCrossover
+        from fandango.evolution.mutation import SimpleMutation
+        from fandango.evolution.population import PopulationManager
+        rec = self
+        o_x, o_m, o_f = SimpleSubtreeCrossover.crossover, SimpleMutation.mutate, PopulationManager.fix_individual
+        o_eq = EqualComparisonSuggestion.get_replacements
+        self._evo_codes = {o_x.__code__, o_m.__code__}
+
+        def snap(ev, name, tree):
+            try:
+                if tree.parent is not None:
+                    raise NotModelled("operator applied to a tree that is not a root")
+                setattr(ev, name, atree_json(tree))
+            except NotModelled as e:
+                ev.not_modelled = str(e)
+
+        def crossover(self, grammar, parent1, parent2):
+            ev = EvoCall("crossover", grammar)
+            snap(ev, "tree", parent1)
+            snap(ev, "tree2", parent2)
+            rec._evo_stack.append(ev)
+            try:
+                out = o_x(self, grammar, parent1, parent2)
+            except BaseException as e:
+                ev.error = type(e).__name__
+                raise
+            finally:
+                rec._evo_stack.pop()
+                rec.evo_calls.append(ev)
+            try:
+                ev.out = None if out is None else [atree_json(out[0]), atree_json(out[1])]
+                ev.inputs_after = [atree_json(parent1), atree_json(parent2)]
+            except NotModelled as e:
+                ev.not_modelled = str(e)
+            return out
+
+        def mutate(self, individual, grammar, evaluate_func, max_nodes=50):
+            ev = EvoCall("mutate", grammar)
+            snap(ev, "tree", individual)
+            ev.max_nodes = int(max_nodes)
+
+            def evaluate(ind):
+                res = yield from evaluate_func(ind)
+                try:
+                    paths = []
+                    for ft in res[1]:
+                        if ft.tree.get_root() is not individual:
+                            raise NotModelled("failing tree outside the individual")
+                        cp = child_path(ft.tree)
+                        if cp is None:
+                            raise NotModelled("failing tree below a sources edge")
+                        paths.append(cp)
+                    ev.failing = paths
+                except NotModelled as e:
+                    ev.not_modelled = str(e)
+                return res
+
+            rec._evo_stack.append(ev)
+            try:
+                out = yield from o_m(self, individual, grammar, evaluate, max_nodes)
+            except BaseException as e:
+                ev.error = type(e).__name__
+                raise
+            finally:
+                rec._evo_stack.pop()
+                rec.evo_calls.append(ev)
+            try:
+                ev.same = out is individual
+                ev.out = gio.tree_to_json(out)
+                ev.inputs_after = [atree_json(individual)]
+            except NotModelled as e:
+                ev.not_modelled = str(e)
+            return out
+
+        def eq_repl(self, individual, grammar):
+            out = o_eq(self, individual, grammar)
+            if rec._evo_stack:
+                rec._evo_stack[-1].given.setdefault(id(self), out)
+            return out
+
+        def fix_individual(self, individual, suggestion=None):
+            ev = EvoCall("fix", self._grammar)
+            snap(ev, "tree", individual)
+            try:
+                ev.cap = current_cap(self._grammar)
+            except NotModelled as e:
+                ev.not_modelled = str(e)
+            ev.suggestion = suggestion
+            ev.individual = individual
+            if ev.not_modelled is None and suggestion is not None:
+                try:
+                    ev.sugg_pre = sugg_fields(suggestion, individual)   # before: get_replacements mutates _goal_len
+                except NotModelled as e:
+                    ev.not_modelled = str(e)
+            start = len(rec.loose_tape)
+            rec._evo_stack.append(ev)
+            try:
+                out = o_f(self, individual, suggestion)
+            except BaseException as e:
+                ev.error = type(e).__name__
+                raise
+            finally:
+                rec._evo_stack.pop()
+                rec.evo_calls.append(ev)
+                ev.tape = list(rec.loose_tape[start:])
+            try:
+                ev.out = [gio.tree_to_json(out[0]), int(out[1])]
+                ev.inputs_after = [atree_json(individual)]
+            except NotModelled as e:
+                ev.not_modelled = str(e)
+            return out
+
+        SimpleSubtreeCrossover.crossover, SimpleMutation.mutate = crossover, mutate
+        PopulationManager.fix_individual, EqualComparisonSuggestion.get_replacements = fix_individual, eq_repl
+        self._saved += [(SimpleSubtreeCrossover, "crossover", o_x), (SimpleMutation, "mutate", o_m),
+                        (PopulationManager, "fix_individual", o_f), (EqualComparisonSuggestion, "get_replacements", o_eq)]
 
     def __exit__(self, *a):
         for obj, name, val in self._saved:
             setattr(obj, name, val)
         self._saved = []
+        return False
+
+
+# ------------------------------------------------------------------------------------------------
+# Grammar.prime(): distance snapshots and call recording
+# ------------------------------------------------------------------------------------------------
+
+def dist_json(node) -> Optional[int]:
+    """distance_to_completion as the driver reads it: int, or None for inf"""
+    d = node.distance_to_completion
+    if isinstance(d, float):
+        if math.isinf(d):
+            return None
+        if math.isnan(d) or d != int(d) or abs(d) >= 2 ** 53:
+            raise NotModelled(f"distance_to_completion {d!r}")
+        d = int(d)
+    if d < 0:
+        raise NotModelled(f"negative distance {d}")
+    return int(d)
+
+
+def _pre_order(node, out: list, seen: set) -> None:
+    if id(node) in seen:
+        raise NotModelled("grammar node object shared between two positions")
+    seen.add(id(node))
+    out.append(node)
+    for c in node.children():
+        _pre_order(c, out, seen)
+
+
+def grammar_nodes(grammar) -> list[list]:
+    """the node objects of every rule in pre-order (the order of the driver's op "prime")"""
+    rows, seen = [], set()
+    for rhs in grammar.rules.values():
+        row: list = []
+        _pre_order(rhs, row, seen)
+        rows.append(row)
+    return rows
+
+
+def dist_snapshot(grammar) -> list[list[Optional[int]]]:
+    return [[dist_json(n) for n in row] for row in grammar_nodes(grammar)]
+
+
+def fresh_snapshot(grammar) -> list[list[Optional[int]]]:
+    """what the constructors (nodes/*.py __init__) leave in distance_to_completion"""
+    from fandango.language.grammar.nodes.repetition import Option, Star
+    from fandango.language.grammar.nodes.terminal import TerminalNode
+    return [[1 if isinstance(n, TerminalNode) else 0 if isinstance(n, (Star, Option)) else None for n in row]
+            for row in grammar_nodes(grammar)]
+
+
+class PrimeHang(Exception):
+    """the real `while nodes:` loop of prime() made more iterations than the bound the model proves sufficient"""
+
+
+def prime_bound(n: int) -> int:
+    """`primeBound` of Model/Prime.lean: n + (n-1) + … + 1"""
+    return n * (n + 1) // 2
+
+
+class PrimeCall:
+    __slots__ = ("ir", "before", "fresh", "after", "error", "not_modelled", "iterations", "bound")
+
+    def __init__(self):
+        self.ir = self.before = self.fresh = self.after = self.error = self.not_modelled = None
+        self.iterations = self.bound = None
+
+
+class PrimeRecorder:
+    """While active every `Grammar.prime()` call is recorded: the grammar IR and the distances of every node
+    before the call, the distances after it (None if the call did not return).  The iterations of the real
+    `while nodes:` loop are counted (a line tracer on the `nodes.pop(0)` line, active only inside prime());
+    a call that exceeds `primeBound(#non-terminal nodes)` iterations — the bound within which the model's loop
+    returns if it returns at all (C01_prime_terminates / C01_prime_returns_iff_completable) — is stopped with
+    PrimeHang.  Measured in steps, not seconds."""
+
+    def __init__(self):
+        self.calls: list[PrimeCall] = []
+        self._orig = None
+
+    def __enter__(self):
+        import inspect
+        from fandango.language.grammar.grammar import Grammar
+        from fandango.language.grammar.nodes.terminal import TerminalNode
+        rec = self
+        orig = Grammar.prime
+        self._orig = orig
+        lines, first = inspect.getsourcelines(orig)
+        pops = [first + i for i, ln in enumerate(lines) if "nodes.pop(0)" in ln]
+        if len(pops) != 1:
+            raise NotModelled("prime(): cannot find the `nodes.pop(0)` line")
+        pop_line, code = pops[0], orig.__code__
+
+        def prime(self):
+            call = PrimeCall()
+            try:
+                call.ir = gio.grammar_to_json(self)[0]
+                call.before = dist_snapshot(self)
+                call.fresh = fresh_snapshot(self)
+                n = sum(1 for row in grammar_nodes(self) for x in row if not isinstance(x, TerminalNode))
+                call.bound = prime_bound(n)
+            except NotModelled as e:
+                call.not_modelled = str(e)
+            rec.calls.append(call)
+            count = [0]
+
+            def local(frame, event, arg):
+                if event == "line" and frame.f_lineno == pop_line:
+                    count[0] += 1
+                    if call.bound is not None and count[0] > call.bound:
+                        raise PrimeHang()
+                return local
+
+            def tracer(frame, event, arg):
+                return local if frame.f_code is code else None
+
+            old = sys.gettrace()
+            sys.settrace(tracer)
+            try:
+                out = orig(self)
+            except BaseException as e:
+                call.error = type(e).__name__
+                raise
+            finally:
+                sys.settrace(old)
+                call.iterations = count[0]
+            if call.not_modelled is None:
+                try:
+                    call.after = dist_snapshot(self)
+                except NotModelled as e:
+                    call.not_modelled = str(e)
+            return out
+
+        Grammar.prime = prime
+        return self
+
+    def __exit__(self, *a):
+        from fandango.language.grammar.grammar import Grammar
+        Grammar.prime = self._orig
         return False
 
 
